@@ -78,10 +78,12 @@ def c11_fire(ctx, carrier, step_ft, kw, wind, rlo, rhi, mode, rmax, fine=None):
         S = float(max(rhi, step_ft))
         tau = ctx.real('time_step', 1e-4, 0.5)
     runs = {}
+    results = {}
     for extra in (False, True):
         with carriers.spy_filter() as spy:
             res = calc.fire(shot, U.Foot(R), U.Foot(S), extra, tau)
         runs[extra] = (res.trajectory, list(spy))
+        results[extra] = res
     for extra, (rows, spy) in runs.items():
         # 1. request independence of the computation
         same = len(spy) <= len(ref) and all((s['t'], tuple(s['p']), tuple(s['v']), s['a']) == ref[i] for i, s in enumerate(spy))
@@ -125,3 +127,62 @@ def c11_fire(ctx, carrier, step_ft, kw, wind, rlo, rhi, mode, rmax, fine=None):
         ctx.check('extra_rows_are_plain_rows_plus_events', ctx.same_term(a.time, b.time) and ctx.same_term(a.distance.raw_value, b.distance.raw_value)
                   and ctx.same_term(a.height.raw_value, b.height.raw_value) and ctx.same_term(a.windage.raw_value, b.windage.raw_value), info={'row': j})
     ctx.check('other_extra_rows_are_events', all(bool(r.flag & (TF.ZERO | TF.MACH)) or r is ext[-1] for r in others))
+    # ... also when the row is looked up through the result accessor (with the row's own distance quantity: no conversion rounding)
+    for j in range(n):
+        a = plain[j]
+        if a.flag == TF.NONE:
+            continue
+        for DU in (U.Foot,):
+            d = a.distance
+            try:
+                ra, rb = results[False].get_at_distance(d), results[True].get_at_distance(d)
+                # (a range row may coincide with an event row at exactly its distance: then the two are the same state, equal to rounding)
+                ctx.check_eq('row_at_a_distance_is_the_same_through_the_accessor', ra.time, a.time, rel=1e-9, abs=1e-12, info={'row': j, 'result': 'plain'})
+                ctx.check_eq('row_at_a_distance_is_the_same_through_the_accessor', rb.time, a.time, rel=1e-9, abs=1e-12, info={'row': j, 'result': 'extra'})
+            except ArithmeticError:
+                ctx.check('row_at_a_distance_is_the_same_through_the_accessor', False, info={'row': j, 'unit': str(DU), 'raised': True})
+
+
+def _cfg_acc(tier):
+    from harness.common import DIST_UNITS
+    units = ['Yard', 'Meter', 'Foot'] if tier == 'quick' else DIST_UNITS[:9]
+    return [{'n': n, 'unit': u} for n in ((2, 3) if tier == 'quick' else (2, 3, 4)) for u in units]
+
+
+@harness('C11.accessor', 'C11', configs=_cfg_acc, cost=3,
+         functions=['py_ballisticcalc.trajectory_data._trajectory_data.HitResult.get_at_distance', 'py_ballisticcalc.trajectory_data._trajectory_data.HitResult.index_at_distance'],
+         must_reach=['check:richer_result_gives_the_same_row_at_a_distance'],
+         bounds='a plain result of N = 2..3 (quick) / 2..4 (thorough) symbolic range rows and the richer result over the same rows plus ONE event row (zero crossing or Mach, symbolic distance '
+                'strictly between two range rows, arbitrarily close to the next one): get_at_distance / index_at_distance with the distance of each range row, given in each unit, '
+                'return that range row from both results')
+def c11_accessor(ctx, n, unit):
+    from harness.common import mkrow
+    p = pybc()
+    U = p.Unit
+    DU = getattr(U, unit)
+    d = []
+    for i in range(n):
+        x = ctx.real(f'd{i}', 0, 1e5)
+        if i:
+            ctx.assume(x > d[-1])
+        d.append(x)
+    # range rows whose distance quantity carries the unit `unit` (what fire() returns under that preferred unit)
+    plain = [p.TrajectoryData(*[(DU(f) if k == 1 else f) for k, f in enumerate(mkrow(p, time=float(2 * i), dist_ft=0.0, flag=int(p.TrajFlag.RANGE)))]) for i in range(n)]
+    for i, r in enumerate(plain):
+        r.distance._value = DU(0.0)._value * 0 + p.Distance.Foot(d[i])._value
+    k = ctx.choice('event_before_row', n - 1) + 1
+    e = ctx.real('event_distance_ft', 0, 1e5)
+    ctx.assume((e > d[k - 1]) & (e < d[k]))
+    ev = p.TrajectoryData(*[(DU(f) if j == 1 else f) for j, f in enumerate(mkrow(p, time=float(2 * k - 1), dist_ft=0.0, flag=int(p.TrajFlag.ZERO_UP)))])
+    ev.distance._value = p.Distance.Foot(e)._value
+    rich = plain[:k] + [ev] + plain[k:]
+    hp, hr = p.HitResult(None, plain, False), p.HitResult(None, rich, True)
+    for i in range(n):
+        q = plain[i].distance
+        for (name, res, rows) in (('plain', hp, plain), ('extra', hr, rich)):
+            try:
+                got = res.get_at_distance(q)
+                idx = res.index_at_distance(q)
+                ctx.check('richer_result_gives_the_same_row_at_a_distance', got is plain[i] and rows[idx] is plain[i], info={'row': i, 'result': name, 'event_before_row': k})
+            except ArithmeticError:
+                ctx.check('richer_result_gives_the_same_row_at_a_distance', False, info={'row': i, 'result': name, 'raised': True})
